@@ -259,12 +259,17 @@ func checkXML(c Case) string {
 	if t.K != "list" && t.K != "map" {
 		return ""
 	}
-	out, err, pan := exportXML(c.Tree.Impl())
+	v := c.Tree.Impl()
+	out, err, pan := exportXML(v)
 	if pan != "" {
 		return "the XML export panics: " + pan
 	}
 	if err != nil {
 		return "the XML export fails: " + err.Error()
+	}
+	// exporting does not consume or change the value
+	if again, err2, pan2 := exportXML(v); pan2 != "" || err2 != nil || string(again) != string(out) {
+		return fmt.Sprintf("the second XML export of the same value differs: %q, then %q (%v %s)", out, again, err2, pan2)
 	}
 	root, perr := parseDoc(out)
 	if perr != nil {
